@@ -66,7 +66,76 @@ func c01Populations() []Pop {
 	return pops
 }
 
+// runC01Drift: time passes while Work() runs (every clock reading advances it). With the clock moving
+// the exact set a tick requests is not fixed, so only what holds regardless is judged: Work() returns,
+// nothing is requested before its time, nothing is requested twice, and nothing that was due before
+// the tick began is left out unless the missed-schedule cap explains it.
+func runC01Drift(c *pure.Ctx, p Pop) {
+	menu := []time.Duration{time.Second, 5 * time.Second, 61 * time.Second, 400 * time.Second}
+	steps := []time.Duration{50 * time.Millisecond, 300 * time.Millisecond, 1100 * time.Millisecond}
+	depth := 3
+	if c.Spec.Thorough {
+		depth = 4
+	}
+	seq := make([]int, depth)
+	var rec func(d int)
+	rec = func(d int) {
+		if c.Expired() {
+			return
+		}
+		if d < depth {
+			for i := range menu {
+				seq[d] = i
+				rec(d + 1)
+			}
+			return
+		}
+		for _, step := range steps {
+			h := NewHarness(p, true)
+			if h.InitErr != nil {
+				c.Violate("init-failed", fmt.Sprintf("population %s: Init failed: %v", p.Name, h.InitErr))
+				return
+			}
+			seen := map[string]bool{}
+			var trace []string
+			for _, i := range seq {
+				trace = append(trace, menu[i].String())
+				got, returned := h.TickDrifting(menu[i], step)
+				c.Eval()
+				desc := fmt.Sprintf("population %s, clock advancing %v per reading, ticks %v", p.Name, step, trace)
+				if !returned {
+					c.Violate("work-never-returns", desc+": Work() was still reading the clock after 5000 readings (endless loop while holding the worker's lock)")
+					return
+				}
+				c.Nontrivial(desc)
+				end := h.Now()
+				for _, e := range got {
+					if e.T.After(end) {
+						c.Violate("early", fmt.Sprintf("%s: %s requested for %s, the clock is %s when Work() returns", desc, e.JC, rel(e.T), rel(end)))
+						return
+					}
+					k := e.JC + "@" + fmt.Sprint(e.T.Unix())
+					if seen[k] {
+						c.Violate("requested-twice", fmt.Sprintf("%s: %s requested again for %s", desc, e.JC, rel(e.T)))
+						return
+					}
+					seen[k] = true
+				}
+			}
+		}
+	}
+	rec(0)
+}
+
 func init() {
+	for _, name := range []string{"sec-every2-k1", "sec-every2", "minutely-two", "population-8-same-tick"} {
+		for _, p := range c01Populations() {
+			if p.Name == name {
+				p := p
+				pure.Register("C01", "time-passes-during-work-"+p.Name, func(c *pure.Ctx) { runC01Drift(c, p) })
+			}
+		}
+	}
 	for _, p := range c01Populations() {
 		p := p
 		pure.Register("C01", "ticks-"+p.Name, func(c *pure.Ctx) { runC01(c, p) })
